@@ -724,6 +724,53 @@ def decide(pid, tier, seed):
                 else:
                     violations.append((n, tag + " " + c["desc"][:80], r))
 
+    # thorough: the same harness bodies run natively over the small scope against the real code (VERIF_SEED
+    # seeds the sampled half). Never evidence of proof; an execution in which an obligation of this property
+    # fails is a concrete counterexample and is reported like a verifier failure (unless it is a listed finding
+    # or the verifier already reported it).
+    native_cross = None
+    if tier == "thorough":
+        native_cross = {"harnesses": 0, "executions": 0, "failed_obligations": []}
+        binary = build_replay()
+        if binary is None:
+            undecided.append("native cross-check: replay binary did not build against this tree")
+        else:
+            def _one(n):
+                try:
+                    rc_, rows, _o = native(binary, "sweep", n, str(int(os.environ.get("VERIF_NATIVE_BUDGET", "40000"))), str(seed), timeout=900)
+                    return n, rows
+                except subprocess.TimeoutExpired:
+                    return n, None
+            with cf.ThreadPoolExecutor(max_workers=WORKERS) as ex:
+                for n, rows in ex.map(_one, names):
+                    if rows is None:
+                        undecided.append(f"{n}: native cross-check timed out")
+                        continue
+                    native_cross["harnesses"] += 1
+                    e = reg["harnesses"][n]
+                    for r_ in rows:
+                        native_cross["executions"] += r_.get("executions", 0)
+                        for f in r_.get("failures", []):
+                            msg = f["obligation"]
+                            m = TAG_RE.match(msg)
+                            if f.get("panic"):
+                                tag = "C20/native.panic"
+                                if pid != "C20":
+                                    continue
+                            elif m:
+                                tag = m.group(0)
+                            else:
+                                continue
+                            if tag not in obligations_of(pid, n, e) and tag != "C20/native.panic":
+                                continue
+                            if [k for k in kf if k["obligation"] == tag and (k.get("harness") in (None, n) or re.fullmatch(k.get("harness", ""), n))]:
+                                continue
+                            if [k for k in kf_other if k["obligation"] == tag]:
+                                continue
+                            native_cross["failed_obligations"].append(f"{n}: {msg[:120]} script={f['script']}")
+                            if not any(v_[0] == n and v_[1].split(" ")[0] == tag for v_ in violations):
+                                violations.append((n, tag, {"raw_tail": f"native execution of the harness body against the real code: {msg} with choices {f['script']}"}))
+
     frame = None
     if pid == "C13":
         import assumptions as _as
@@ -822,6 +869,7 @@ def decide(pid, tier, seed):
             "reuse_note": "a harness result is reused only when /repo/src, Cargo.toml/lock, the harness sources and the tool version hash to the same value as when this machinery produced it (set VERIF_NO_CACHE=1 to force re-verification)",
             "verus": {"functions": [o["name"] for o in v["obligations"]], "time_s": v.get("time_s"), "extraction": v.get("extraction", [])},
             "obligations_dead_in_their_instantiation_not_counted": n_dead,
+            "native_small_scope_cross_check": native_cross,
             "bounded_obligations": bounded,
             "bounded_note": "bounded obligations are listed with their bound and are NOT counted in obligations/discharged",
             "functions_under_contract": assumptions.functions_under_contract(pid, names, reg, REPO),
